@@ -267,7 +267,9 @@ def classify(di, w, previous=None):
             return DONTCARE, None
         if not _isnum(w):
             return REJECT, {WRONGTYPE}
-        if isinstance(w, float) and (math.isnan(w) or math.isinf(w)):
+        if isinstance(w, float) and math.isnan(w):
+            return REJECT, {RANGE, WRONGTYPE}    # NaN is not a number: it is inside no range
+        if isinstance(w, float) and math.isinf(w):
             return DONTCARE, None
         lo, hi = di.get('min', -FMAX), di.get('max', FMAX)
         if lo <= w <= hi:
@@ -282,7 +284,9 @@ def classify(di, w, previous=None):
         if not _isnum(w):
             return REJECT, {WRONGTYPE}
         if isinstance(w, float):
-            if math.isnan(w) or math.isinf(w):
+            if math.isnan(w):
+                return REJECT, {RANGE, WRONGTYPE}
+            if math.isinf(w):
                 return DONTCARE, None
             if not w.is_integer():
                 return REJECT, {WRONGTYPE}
@@ -298,7 +302,9 @@ def classify(di, w, previous=None):
         if not _isnum(w):
             return REJECT, {WRONGTYPE}
         if isinstance(w, float):
-            if math.isnan(w) or math.isinf(w):
+            if math.isnan(w):
+                return REJECT, {RANGE, WRONGTYPE}
+            if math.isinf(w):
                 return DONTCARE, None
             if not w.is_integer():
                 return REJECT, {WRONGTYPE}
@@ -403,7 +409,9 @@ def _combine(results, ctor):
 
 # ------------------------------------------------------------------ boundary payloads
 
-JSON_KINDS = [None, True, False, 0, 1, -1, 2.5, 1e308, 'x', '5', '', [], [1], {}, {'a': 1}, [[]], 'abc']
+NAN = float('nan')     # json.dumps writes it as the (non-standard) literal NaN, which json.loads of the node accepts
+INF = float('inf')
+JSON_KINDS = [None, True, False, 0, 1, -1, 2.5, 1e308, 'x', '5', '', [], [1], {}, {'a': 1}, [[]], 'abc', NAN, INF]
 
 
 def boundary_payloads(rng, di, n=6):
@@ -424,7 +432,7 @@ def _mutate(rng, di, w):
     t = di['type']
     if t == 'double':
         lo, hi = di.get('min', -FMAX), di.get('max', FMAX)
-        c = [str(w), [w], None, True]
+        c = [str(w), [w], None, True, NAN, NAN, INF, -INF]
         if lo > -1e300:
             p = _prec(di, lo)
             c += [lo - 3 * p - abs(lo) * 1e-3 - 1e-3, lo - 0.5 * p]
@@ -433,10 +441,10 @@ def _mutate(rng, di, w):
             c += [hi + 3 * p + abs(hi) * 1e-3 + 1e-3, hi + 0.5 * p]
         return rng.choice(c)
     if t == 'int':
-        return rng.choice([di['min'] - 1, di['max'] + 1, w + 0.5, float(w), str(w), [w], di['max'] + 10 ** 6, None])
+        return rng.choice([di['min'] - 1, di['max'] + 1, w + 0.5, float(w), str(w), [w], di['max'] + 10 ** 6, None, NAN, INF])
     if t == 'scaled':
         return rng.choice([di['min'] - 2, di['max'] + 2, di['min'] - 1, w + 0.5, str(w), float(w), [w], None,
-                           di['max'] + 10 ** 7])
+                           di['max'] + 10 ** 7, NAN, -INF])
     if t == 'bool':
         return rng.choice([0, 1, 2, 'true', 'True', None, [True], 0.5, -1])
     if t == 'enum':
